@@ -1332,6 +1332,10 @@ class KafkaClient(object):
         # If any of the payloads failed, fail
         responses = [acc[k] for k in original_keys if k in acc] if acc else []
         if failed_payloads:
+            if all(f.check(t_CancelledError) for _p, f in failed_payloads):
+                # Nothing failed: our caller cancelled us, which cancelled
+                # the requests (a timeout shows as RequestTimedOutError).
+                raise t_CancelledError()
             self.reset_all_metadata()
             raise FailedPayloadsError(responses, failed_payloads)
 
